@@ -1,5 +1,6 @@
 #![allow(dead_code)]
 mod util;
+mod c02;
 mod c04;
 mod c09;
 mod sparql;
@@ -13,6 +14,7 @@ fn main() {
     util::quiet_panics();
     let a = util::Args::parse(&argv[2..]);
     match argv[1].as_str() {
+        "c02" => c02::main(&a),
         "c04" => c04::main(&a),
         "c09" => c09::main(&a),
         "sparql" => sparql::main(&a),
